@@ -41,6 +41,7 @@ inductive Expr where
   | and (a b : Expr)
   | or (a b : Expr)
   | sel (c a b : Expr)                                       -- `a if c else b`
+  | cat (a : Expr) (w : Nat) (b : Expr)                      -- `a @ b` with b of width w; `resize(zeros=w)` = cat a w 0
   deriving Repr
 
 structure St where
@@ -70,6 +71,7 @@ def eval : Expr → St → Nat
   | .and a b, s => b2n (eval a s != 0 && eval b s != 0)
   | .or a b, s => b2n (eval a s != 0 || eval b s != 0)
   | .sel c a b, s => if eval c s != 0 then eval a s else eval b s
+  | .cat a w b, s => eval a s * 2 ^ w + eval b s % 2 ^ w
 
 structure Target where
   obj : Nat
